@@ -591,6 +591,17 @@ fn c07(cx: &mut Ctx) {
             cx.sink.emit(line);
         }
     }
+    // valid-by-construction set-ups with extreme material (never filtered through the crate):
+    // builder route and FEN route
+    for _ in 0..cx.n(400) {
+        let d = material_extreme(&mut cx.rng);
+        if d.men() < 2 { continue; }
+        cx.sink.count("material_extremes");
+        cx.sink.emit(ops::bld(&d));
+        if let Some(t) = guard(|| format!("{}", d.builder())) {
+            cx.sink.emit(ops::fenp(&t));
+        }
+    }
     for _ in 0..cx.n(C07_BLD) {
         let d = random_builder_state(&mut cx.rng);
         cx.sink.hist("builder_men", format!("{:02}", d.men()));
@@ -1179,6 +1190,37 @@ fn c13(cx: &mut Ctx) {
             cx.sink.emit(ops::sqp(&format!("{}{}", f, r)));
         }
     }
+    // text that a lenient reader might skip (white space, byte-order mark, zero-width and formatting
+    // characters, signs, quotes, upper case): in front of every square, and in front of / inside moves.
+    // The result's rendering must be a prefix of the input, so none of these may be skipped.
+    const SKIPPABLE: [&str; 30] = [
+        " ", "\t", "\n", "\r", "\u{feff}", "\u{200b}", "\u{200c}", "\u{200d}", "\u{2060}", "\u{a0}", "\u{3000}", "\u{85}",
+        "\u{0}", "\u{7f}", "+", "-", "0", "\"", "'", "(", "[", ".", ",", ":", "=", "x", "\u{202a}", "\u{e0001}", "\u{fe0f}", "  ",
+    ];
+    for s in 0..64 {
+        for pre in SKIPPABLE.iter() {
+            cx.sink.emit(ops::sqp(&format!("{}{}", pre, sq_name(sq(s)))));
+        }
+        let name = sq_name(sq(s));
+        let (f, r) = name.split_at(1);
+        for mid in SKIPPABLE.iter().take(14) {
+            cx.sink.emit(ops::sqp(&format!("{}{}{}", f, mid, r)));
+        }
+        cx.sink.emit(ops::sqp(&name.to_uppercase()));
+    }
+    for _ in 0..cx.n(120) {
+        let a = sq_name(sq(cx.rng.below(64)));
+        let b = sq_name(sq(cx.rng.below(64)));
+        let pr = ["", "", "q", "r", "b", "n"][cx.rng.below(6)];
+        for pre in SKIPPABLE.iter() {
+            cx.sink.emit(ops::uci(&format!("{}{}{}{}", pre, a, b, pr)));
+            cx.sink.emit(ops::uci(&format!("{}{}{}{}", a, pre, b, pr)));
+            if !pr.is_empty() {
+                cx.sink.emit(ops::uci(&format!("{}{}{}{}", a, b, pre, pr)));
+            }
+        }
+        cx.sink.emit(ops::uci(&format!("{}{}{}", a, b, pr).to_uppercase()));
+    }
     let n = cx.n(C13_RANDOM);
     for i in 0..n {
         let base = format!(
@@ -1484,6 +1526,16 @@ fn c19(cx: &mut Ctx) {
     for s in CACHE_BAD_SIZES.iter() {
         let (_, prog) = cache_program(&mut cx.rng);
         cx.sink.emit(ops::cache(*s, &prog));
+    }
+    // sizes beyond 2^16 (the index no longer fits 16 bits): programs whose hashes have their
+    // distinguishing index bits at the TOP of the index range
+    let top = if cx.thorough { 23 } else { 21 };
+    for k in 17..=top {
+        for _ in 0..2 {
+            let prog = cache_program_for(&mut cx.rng, 1u64 << k);
+            cx.sink.hist("size_kind", format!("2^{:02}", k));
+            cx.sink.emit(ops::cache(1u64 << k, &prog));
+        }
     }
     for _ in 0..n {
         let (size, prog) = cache_program(&mut cx.rng);
